@@ -144,8 +144,10 @@ class SymEnv:
                 arr[idx] = Val("lin", v)
             if spec.unit_interval:
                 ctx.assumptions.append(T.and_(T.gt(v, T.ZERO), T.lt(v, T.ONE)))
+                ctx.positive_vars.add(v)
             elif spec.positive:
                 ctx.assumptions.append(T.gt(v, T.ZERO))
+                ctx.positive_vars.add(v)
         if spec.normalized_axis is not None:
             # renormalise the concrete valuation and assume the sums
             ax = spec.normalized_axis % len(p.shape)
@@ -158,10 +160,48 @@ class SymEnv:
                 vals_ = [ctx.env[v.re] / tot for v in lane]
                 vals_ = [round(x, 6) for x in vals_]
                 vals_[-1] = 1.0 - sum(vals_[:-1])
-                for v, x in zip(lane, vals_):
+                for v, x in zip(lane[:-1], vals_[:-1]):
                     nm = v.re.data
                     ctx.env[v.re] = float(self.overrides.get(nm, x))
-                ctx.assumptions.append(T.eq(T.add(*[v.re for v in lane]), T.ONE))
+                # the last entry is DEFINED as 1 - sum(others): normalisation holds by construction and
+                # goals that depend on it become polynomial identities
+                last_var = lane[-1].re
+                last = T.sub(T.ONE, T.add(*[v.re for v in lane[:-1]]))
+                if last_var in self.param_vars:
+                    self.param_vars.remove(last_var)
+                ctx.env.pop(last_var, None)
+                ctx.positive_vars.discard(last_var)
+                a2[idx + (len(lane) - 1,)] = Val("lin", last)
+                ctx.assumptions.append(T.and_(T.gt(last, T.ZERO), T.lt(last, T.ONE)))
+        self.penv.leaves[p] = arr
+        return arr
+
+    def new_observation(self, p: SP.ConstantParameter, evi_layer):
+        """make the content of an evidence layer's observation parameter symbolic (any value of the
+        variable's domain / any real); the concrete valuation is the declared observation."""
+        if p in self.penv.leaves:
+            return self.penv.leaves[p]
+        name = f"obs{len(self.leaf_names)}"
+        self.leaf_names[p] = name
+        self.leaf_specs[p] = LeafSpec()
+        inner = evi_layer.layer
+        n = None
+        for attr in ("num_categories", "num_states"):
+            if hasattr(inner, attr):
+                n = getattr(inner, attr)
+        if hasattr(inner, "total_count"):
+            n = inner.total_count + 1
+        arr = np.empty(p.shape, dtype=object)
+        vals_ = np.broadcast_to(np.asarray(p.value), p.shape)
+        for idx in np.ndindex(*p.shape):
+            nm = f"{name}[{','.join(map(str, idx))}]"
+            if n is not None:
+                arr[idx] = self.new_int_input(nm, n, int(self.overrides.get(nm, vals_[idx])))
+            else:
+                arr[idx] = self.new_real_input(nm, float(self.overrides.get(nm, vals_[idx])))
+        if not hasattr(self.penv, "symbolic_obs"):
+            self.penv.symbolic_obs = set()
+        self.penv.symbolic_obs.add(p)
         self.penv.leaves[p] = arr
         return arr
 
@@ -325,6 +365,8 @@ class Session:
         self.discharged = 0
         self.syntactic = 0
         self.by_identity = 0
+        self.case_splits = 0
+        self.exp_lemmas = 0
         self.inconclusive: list[str] = []
         self.cex: list[dict] = []
 
@@ -346,7 +388,11 @@ class Session:
             raise HarnessError(f"vacuous case: assumptions and path condition are {r}")
 
     def prove(self, goal: T.Term, label: str, under_pc: bool = True):
-        """returns 'valid' | 'cex' | 'unknown'; records counterexample model on cex."""
+        """returns 'valid' | 'cex' | 'unknown'; records counterexample model on cex.
+
+        Strategy: (1) syntactic (hash-consed normal forms coincide); (2) polynomial identity by z3's
+        rewriter; (3) explicit case split over the finite-domain (discrete input / drawn index)
+        variables of the goal, each leaf again by (1),(2) or nlsat; (4) nlsat on the whole goal."""
         self.sync()
         self.obligations += 1
         if goal is T.TRUE:
@@ -358,30 +404,155 @@ class Session:
             self.discharged += 1
             self.by_identity += 1
             return "valid"
+        # denominators kept as POS[.] atoms: unfold their definitions (x * (1/x) then cancels in the
+        # term normal form) and retry the identity stage
+        gpos = self.expand_pos_atoms(goal)
+        if gpos is not goal:
+            if gpos is T.TRUE or self.q.identity(gpos):
+                self.discharged += 1
+                self.by_identity += 1
+                return "valid"
+            goal = gpos
+        goal0 = goal
+        goal = self.rewrite_exp_atoms(goal)
+        if goal is not goal0:
+            if goal is T.TRUE or self.q.identity(goal):
+                self.discharged += 1
+                self.by_identity += 1
+                return "valid"
+        fin = [s for s in T.free_symbols([goal]) if s in self.ctx.int_domains]
+        ncomb = 1
+        for s in fin:
+            lo, hi = self.ctx.int_domains[s]
+            ncomb *= hi - lo
+        if fin and ncomb <= 729:
+            fin.sort(key=lambda s: s.data)
+            doms = [range(*self.ctx.int_domains[s]) for s in fin]
+            all_ok = True
+            for assign in itertools.product(*doms):
+                mp = {s: T.const(v) for s, v in zip(fin, assign)}
+                (g2,) = T.substitute([goal], mp)
+                if g2 is T.TRUE:
+                    continue
+                self.case_splits += 1
+                if self.q.identity(g2, 20000):
+                    continue
+                fix = [T.eq(s, T.const(v)) for s, v in zip(fin, assign)]
+                r, model = self.q.check_sat(extra + fix + [T.not_(g2)])
+                if r == "unsat":
+                    continue
+                if r == "sat":
+                    return self._record_cex(goal, label, extra + fix, model)
+                all_ok = False
+                break
+            if all_ok:
+                self.discharged += 1
+                return "valid"
+            self.inconclusive.append(label)
+            return "unknown"
         r, model = self.q.check_sat(extra + [T.not_(goal)])
         if r == "unsat":
             self.discharged += 1
             return "valid"
         if r == "sat":
-            # prefer a tame model (bounded magnitudes) for replay
-            syms = [s for s in T.free_symbols([goal]) | set(self.senv.param_vars) | set(self.senv.input_vars)]
-            box = []
-            for s in syms:
-                if s.sort == "B":
-                    continue
-                if s.op == "atom":
-                    box.append(T.and_(T.ge(s, T.const(Fraction(1, 64))), T.le(s, T.const(64))))
-                else:
-                    box.append(T.and_(T.ge(s, T.const(-8)), T.le(s, T.const(8))))
-            r2, model2 = self.q.check_sat(extra + [T.not_(goal)] + box)
-            if r2 == "sat":
-                model = model2
-            allsyms = set(self.senv.param_vars) | set(self.senv.input_vars) | T.free_symbols([goal])
-            env = self.q.model_env(model, allsyms)
-            self.cex.append({"label": label, "env": env, "goal": goal})
-            return "cex"
+            return self._record_cex(goal, label, extra, model)
         self.inconclusive.append(label)
         return "unknown"
+
+    def expand_pos_atoms(self, goal: T.Term) -> T.Term:
+        ctx = self.ctx
+        for _ in range(6):
+            mp = {}
+            for s_ in T.free_symbols([goal]):
+                d = ctx.atom_def.get(s_)
+                if s_.op == "atom" and d is not None and d[0] == "pos":
+                    mp[s_] = d[1]
+            if not mp:
+                return goal
+            (goal,) = T.substitute([goal], mp)
+        return goal
+
+    def rewrite_exp_atoms(self, goal: T.Term) -> T.Term:
+        """Exponent lemmas: an atom E[c] whose exponent the solver proves equal to c_a + c_b (+ c_d) for
+        other atoms E[c_a], E[c_b] (, E[c_d]) occurring in the goal is rewritten to their product
+        (candidates are guessed from the concrete valuation, each lemma is then proved)."""
+        ctx = self.ctx
+        atoms = []
+        for s_ in T.free_symbols([goal]):
+            d = ctx.atom_def.get(s_)
+            if s_.op == "atom" and d is not None and d[0] == "exp" and d[1].op != "var":
+                try:
+                    atoms.append((s_, d[1], ctx.value(d[1])))
+                except Exception:
+                    pass
+        if len(atoms) < 3:
+            return goal
+        atoms.sort(key=lambda a: a[0].id)
+        mapping = {}
+        n = len(atoms)
+
+        def close_(x, y):
+            return abs(x - y) <= 1e-9 * max(1.0, abs(x), abs(y))
+
+        for ci in range(n):
+            c_atom, c_core, c_val = atoms[ci]
+            found = None
+            for ai in range(n):
+                if ai == ci or found:
+                    continue
+                for bi in range(ai, n):
+                    if bi == ci:
+                        continue
+                    if close_(atoms[ai][2] + atoms[bi][2], c_val) and ctx.prove_equal(T.add(atoms[ai][1], atoms[bi][1]), c_core):
+                        found = T.mul(atoms[ai][0], atoms[bi][0])
+                        break
+            if found is None and n <= 14:
+                for ai in range(n):
+                    if ai == ci or found:
+                        continue
+                    for bi in range(ai, n):
+                        if bi == ci or found:
+                            continue
+                        for di in range(bi, n):
+                            if di == ci:
+                                continue
+                            if close_(atoms[ai][2] + atoms[bi][2] + atoms[di][2], c_val) and ctx.prove_equal(
+                                T.add(atoms[ai][1], atoms[bi][1], atoms[di][1]), c_core
+                            ):
+                                found = T.mul(atoms[ai][0], atoms[bi][0], atoms[di][0])
+                                break
+            if found is not None:
+                mapping[c_atom] = found
+                self.exp_lemmas += 1
+        if not mapping:
+            return goal
+        # a rewritten atom must not occur in another atom's replacement
+        for k in list(mapping):
+            if any(k in T.free_symbols([v]) for kk, v in mapping.items() if kk is not k):
+                del mapping[k]
+        if not mapping:
+            return goal
+        (g2,) = T.substitute([goal], mapping)
+        return g2
+
+    def _record_cex(self, goal, label, extra, model):
+        # prefer a tame model (bounded magnitudes) for replay
+        syms = [s for s in T.free_symbols([goal]) | set(self.senv.param_vars) | set(self.senv.input_vars)]
+        box = []
+        for s in syms:
+            if s.sort == "B":
+                continue
+            if s.op == "atom":
+                box.append(T.and_(T.ge(s, T.const(Fraction(1, 64))), T.le(s, T.const(64))))
+            else:
+                box.append(T.and_(T.ge(s, T.const(-8)), T.le(s, T.const(8))))
+        r2, model2 = self.q.check_sat(extra + [T.not_(goal)] + box)
+        if r2 == "sat":
+            model = model2
+        allsyms = set(self.senv.param_vars) | set(self.senv.input_vars) | T.free_symbols([goal])
+        env = self.q.model_env(model, allsyms)
+        self.cex.append({"label": label, "env": env, "goal": goal})
+        return "cex"
 
 
 # ---------------------------------------------------------------------------------------------
